@@ -73,6 +73,10 @@ pub struct NodeGhost {
     /// highest index acknowledged (released non-reject MsgAppendResponse) per message term,
     /// with the term of the acknowledged entry: (message term, index, entry term)
     pub acked: Vec<(u64, u64, u64)>,
+    /// a crash took the node's knowledge that a membership change in its durable log is
+    /// committed (entries durable, the hard state carrying the commit index not): the commit
+    /// index it had known (0 = no such loss)
+    pub lost_cc_commit: u64,
 }
 
 #[derive(Clone)]
@@ -94,6 +98,9 @@ pub struct Ghost {
     pub leader_of: BTreeMap<u64, u64>,
     /// terms whose recorded leader never had (term, vote = itself) on its durable disk
     pub leader_volatile: std::collections::BTreeSet<u64>,
+    /// terms in which some node led while a crash had taken its knowledge that a membership
+    /// change in its log is committed (NodeGhost::lost_cc_commit) and it had not re-applied it
+    pub leader_torn: std::collections::BTreeSet<u64>,
     pub max_commit_ever: u64,
     pub max_leader_commit: u64,
     /// bit i: index i was covered by a commit advance of a node acting as leader (C04)
@@ -1515,6 +1522,16 @@ impl World {
         for (_, op) in l.unsynced.iter().take(k) {
             node.disk.apply_op(op);
         }
+        let known = l.rn.raft.raft_log.committed;
+        let durable = node.disk.hs.commit.max(node.disk.snap_index);
+        let lost = node.disk.entries.iter().any(|e| {
+            e.index > durable
+                && e.index <= known
+                && (e.get_entry_type() == EntryType::EntryConfChange || e.get_entry_type() == EntryType::EntryConfChangeV2)
+        });
+        if lost {
+            node.g.lost_cc_commit = node.g.lost_cc_commit.max(known);
+        }
     }
 
     /// The synchronous Ready round of §2.4(2), optionally cut by a crash.
@@ -1899,6 +1916,7 @@ impl World {
             w.b(node.created);
             write_store(w, &node.disk);
             w.u64(node.g.max_term_told);
+            w.u64(node.g.lost_cc_commit);
             w.us(node.g.votes.len());
             for (t, c) in &node.g.votes {
                 w.u64(*t);
@@ -1944,6 +1962,7 @@ impl World {
             w.u64(*t);
             w.u64(*l);
             w.b(g.leader_volatile.contains(t));
+            w.b(g.leader_torn.contains(t));
         }
         w.u8(0xfe);
         w.u64(g.max_commit_ever);
